@@ -277,6 +277,57 @@ def h_project_region(ctx):
     ctx.claim("projected region is a valid region", And(le(out[0], out[1]), le(out[2], out[3])))
 
 
+def h_project_region_any(ctx):
+    """arbitrary projection (a pair of uninterpreted functions, hence possibly non-monotone and
+    non-separable): the result is the bounding box of the projected sample nodes - all of them"""
+    cfg = ctx.cfg
+    nn = cfg["n"]
+    w, ee, s, no = ctx.real("W"), ctx.real("E"), ctx.real("S"), ctx.real("N")
+    ctx.assume(w <= ee)
+    ctx.assume(s <= no)
+    seen = {}
+
+    if ctx.sym:
+        PE = z3.Function("projE", z3.RealSort(), z3.RealSort(), z3.RealSort())
+        PN = z3.Function("projN", z3.RealSort(), z3.RealSort(), z3.RealSort())
+
+        def one(x, y):
+            return E.SymReal(PE(E.T(x), E.T(y))), E.SymReal(PN(E.T(x), E.T(y)))
+    else:
+        import math
+
+        def one(x, y):
+            # interior extrema in both outputs
+            return math.hypot(x - 0.3, y + 0.2) + 0.1 * x, math.sin(1.3 * x) * (y - 0.1) ** 2 - 0.05 * y
+
+    def projection(east, north):
+        east, north = np.asarray(east), np.asarray(north)
+        oe = np.empty(east.shape, dtype=object if ctx.sym else float)
+        on = np.empty(east.shape, dtype=object if ctx.sym else float)
+        for idx in np.ndindex(*east.shape):
+            oe[idx], on[idx] = one(east[idx], north[idx])
+            seen[idx] = (oe[idx], on[idx])
+        return (oe.view(npx.MinMaxArray), on.view(npx.MinMaxArray)) if ctx.sym else (oe, on)
+
+    real_gc = vp.grid_coordinates
+    if nn != 101:
+        vp.grid_coordinates = _proj_globals_factory(nn)()[("verde.projections", "grid_coordinates")]
+    try:
+        out = vp.project_region((w, ee, s, no), projection)
+    finally:
+        vp.grid_coordinates = real_gc
+    ctx.claim("the projection is evaluated on every node of the sampling grid", len(seen) == nn * nn)
+    # independent recomputation on the node grid
+    ge_, gn_ = vc.grid_coordinates((w, ee, s, no), shape=(nn, nn))
+    pe, pn = [], []
+    for a, b in zip(ge_.ravel(), gn_.ravel()):
+        x, y = one(a, b)
+        pe.append(x)
+        pn.append(y)
+    ctx.claim("projected W/E = min/max over all projected sample nodes, interior ones included", And(eq(out[0], smin(pe)), eq(out[1], smax(pe))))
+    ctx.claim("projected S/N = min/max over all projected sample nodes, interior ones included", And(eq(out[2], smin(pn)), eq(out[3], smax(pn))))
+
+
 def h_maxabs(ctx):
     shapes = ctx.cfg["shapes"]
     arrays = [ctx.reals("a%d" % i, tuple(sh)) for i, sh in enumerate(shapes)]
@@ -342,6 +393,15 @@ HARNESSES = [
         bounds="separable affine projections with concrete slopes (both signs) and symbolic offsets; symbolic valid region; the 101x101 sampling reduced to 3x3 (quick) / 11x11 and one full 101x101 (thorough)",
         outside="non-monotone projections (the sampling is then approximate by design)",
         timeout_s=900,
+    ),
+    Harness(
+        "project_region_any_projection",
+        h_project_region_any,
+        lambda tier, seed: [{"n": 3}] + ([{"n": 5}, {"n": 11}] if tier == "thorough" else []),
+        bounds="arbitrary projection as a pair of uninterpreted functions of (easting, northing); symbolic valid region; sampling reduced to 3x3 (quick) / 5x5, 11x11 (thorough)",
+        stubs=["ndarray.min/max of the projected arrays merged into If-terms"],
+        outside="that 101x101 samples approximate the true bounding box of a non-monotone projection (by design an approximation)",
+        engine={"oneshot": True},
     ),
     Harness("maxabs", h_maxabs, {"quick": [{"shapes": [(2,), (1, 2)]}], "thorough": [{"shapes": [(2,), (1, 2)]}, {"shapes": [(3,)]}, {"shapes": [(2, 2), (1,), (2,)]}]}, bounds="1-3 arrays of up to 4 symbolic entries plus a scalar"),
 ]
